@@ -60,6 +60,63 @@ def s_alpn(vc):
 from props.prelude import *
 
 
+class TlsStub:
+    """pyOpenSSL SSL.Connection stand-in for a completed handshake (trusted library contract: do_handshake returns,
+    get_alpn_proto_negotiated returns the negotiated protocol, b'' if none was negotiated)."""
+
+    def bio_write(self, data):
+        return None
+
+    def do_handshake(self):
+        return None
+
+    def get_peer_cert_chain(self):
+        return None
+
+    def get_peer_certificate(self):
+        return None
+
+    def get_alpn_proto_negotiated(self):
+        return self.negotiated
+
+    def get_cipher_name(self):
+        return "TLS_AES_256_GCM_SHA384"
+
+    def get_protocol_version_name(self):
+        return "TLSv1.3"
+
+
+TL = "mitmproxy.proxy.layers.tls:TLSLayer"
+
+
+@scenario("handshake_done.upstream_alpn_recorded_exactly", functions=[TL + ".receive_handshake_data"])
+def s_record_alpn(vc):
+    """'The upstream protocol is known' is what alpn_select_callback reads as server_alpn: after a completed handshake the
+    connection's alpn must be exactly what was negotiated — in particular *b''* (known: nothing negotiated, to be mirrored
+    to the client as 'none') must stay distinguishable from None (unknown)."""
+    side = vc.case("side", ["server", "client"])
+    negotiated = vc.sym_bytes("negotiated")
+    client = mk_client(vc)
+    server = mk_server(vc)
+    ctx = mk_context(vc, client, server)
+    tls = vc.new("props.C18:TlsStub", negotiated=negotiated)
+    conn = server if side == "server" else client
+    lay = vc.new("mitmproxy.proxy.layers.tls:ServerTLSLayer" if side == "server" else "mitmproxy.proxy.layers.tls:ClientTLSLayer",
+                 context=ctx, conn=conn, tunnel_connection=conn, tls=tls, debug=None, _paused=None, _paused_event_queue=None,
+                 client_hello_parsed=True)
+    vc.summary(TL + ".receive_data", lambda v, self_, data: v.gen([]))
+    out = vc.call(TL + ".receive_handshake_data", lay, vc.sym_bytes("data"))
+    vc.ensure("no_exception", out.ok)
+    if not out.ok:
+        return
+    vc.ensure("handshake_reported_done", vc.eq(out.result, (True, None)))
+    vc.ensure("alpn_not_unknown", not isnone(conn.alpn))
+    if not isnone(conn.alpn):
+        vc.ensure("alpn_is_exactly_negotiated", conn.alpn == negotiated)
+    kinds = trace_kinds(out.trace)
+    vc.ensure("established_hook_for_this_side", kinds == (["TlsEstablishedServerHook"] if side == "server" else ["TlsEstablishedClientHook"]))
+
+
 def bounded(tier, seed):
     """All offer lists up to length 3 over 7 protocol classes x forced/upstream ALPN states x http2, on the real callback."""
     import itertools
